@@ -94,15 +94,21 @@ for mp in sorted(glob.glob(os.path.join(V, "seeded/*/meta.json"))):
     m = json.load(open(mp))
     seeds.append((os.path.basename(os.path.dirname(mp)), m.get("checks", [m.get("property")]), m.get("needs", "")))
 res = {}
+first = {}
 logs = sorted(glob.glob(os.path.join(V, "design/selftest_*.log")))
 for lg in logs:
     for l in open(lg):
         m = re.match(r"(\S+)\s+(C\d\d)\s+(\S+)", l)
         if m and not l.startswith(" "):
+            first.setdefault((m.group(3), m.group(2)), m.group(1))
             res[(m.group(3), m.group(2))] = m.group(1)
 out.append("**Independently seeded changes (%d):**\n\n| id | what it needs to manifest | check → result |\n|---|---|---|\n" % len(seeds))
 for sid, checks, needs in seeds:
-    r = ", ".join("%s: %s" % (c, res.get(("seeded/%s/patch.diff" % sid, c), "not run")) for c in checks)
+    def show(c, sid=sid):
+        k = ("seeded/%s/patch.diff" % sid, c)
+        a, b = first.get(k), res.get(k, "not run")
+        return "%s: %s" % (c, b if a in (None, b) else "%s → %s" % (a, b))
+    r = ", ".join(show(c) for c in checks)
     out.append("| `%s` | %s | %s |\n" % (sid, needs.replace("|", "/")[:420], r))
 mp = json.load(open(os.path.join(V, "regress/MAP.json")))
 out.append("\n**Reverse patches of the fix commits (%d):**\n\n| patch | check → result |\n|---|---|\n" % len(mp))
@@ -119,7 +125,8 @@ for c in sorted(agg):
     out.append("| %s | %s |\n" % (c, ", ".join("%s × %d" % kv for kv in sorted(agg[c].items()))))
 out.append("\n`caught` = the check exits 1 with a VIOLATION line and a concrete replay; `caught(no-input)` = a proof obligation broke and the "
            "search found no failing input (reported with `no-failing-input-found`); `quiet(ok)` = harmless rewrite, no alarm. "
-           "Source: `design/selftest_*.log` (output of `bin/selftest`).\n")
+           "`MISSED → caught` = missed when the change was first run against the checks, caught after the check was strengthened (the logs are "
+           "read in order, the last run of each pair is shown). Source: `design/selftest_*.log` (output of `bin/selftest`).\n")
 out.append("\n\n## 9." + sec9)
 open(os.path.join(V, "DESIGN.md"), "w").write("".join(out))
 print("DESIGN.md written: %d lines" % "".join(out).count("\n"))
